@@ -76,7 +76,7 @@ Proof.
   unfold fresh_uid.
   match goal with |- context [draw_check_p 200 0 ?s] => pose proof (fr_draw_check_p 200 0 s) as H2; destruct (draw_check_p 200 0 s) as [c s2] end.
   match goal with |- context [k_add ?a ?b ?d s2] => pose proof (fr_k_add a b d s2) as H3; destruct (k_add a b d s2) as [res s3] end.
-  cbn in *. destruct H as [A1 B1], H2 as [A2 B2], H3 as [A3 B3]. split; cbn in *; congruence.
+  destruct (res =? 0); cbn in *; destruct H as [A1 B1], H2 as [A2 B2], H3 as [A3 B3]; split; cbn in *; congruence.
 Qed.
 Lemma fr_poll_mod : forall p fd e k st, fr st (snd (poll_mod p fd e k st)).
 Proof.
@@ -150,21 +150,31 @@ Proof.
   intros p. rewrite J2. apply (fr_jq _ _ p F).
 Qed.
 
+Lemma callback_workload_fr : forall beh kind key a b st s1, workload beh -> nosig st -> fr st s1 ->
+  nosig (snd (callback beh kind key a b s1)) /\ (forall p, jq (snd (callback beh kind key a b s1)) p = jq st p).
+Proof.
+  intros beh kind key a b st s1 W N F.
+  destruct (callback_workload beh kind key a b s1 W (fr_nosig _ _ F N)) as [N2 J2].
+  split; [exact N2|]. intros p. rewrite J2. apply (fr_jq _ _ p F).
+Qed.
+
 (* dispatching an item that is not a signal clone leaves every job list as it is *)
 Lemma dispatch_workload : forall beh it st, workload beh -> nosig st -> is_sig it = false ->
   nosig (dispatch beh it st) /\ (forall p, jq (dispatch beh it st) p = jq st p).
 Proof.
   intros beh it st W N S. destruct it; try discriminate S; cbn [dispatch].
-  - apply callback_workload; auto.
+  - apply callback_workload_fr; auto. split; reflexivity.
   - destruct (nth_error (timers st) slot) as [tsl|]; [|split; auto].
-    match goal with |- context [callback beh 1 ?k 0 0 ?s] => set (s1 := s);
-      pose proof (callback_workload beh 1 k 0 0 s1 W) as CB; destruct (callback beh 1 k 0 0 s1) as [r s2] end.
-    assert (F : fr st s1) by (split; reflexivity). destruct (CB (fr_nosig _ _ F N)) as [N2 J2]. cbn [snd] in *.
+    match goal with |- context [callback beh 1 ?k 0 0 ?s] =>
+      assert (F : fr st s) by (split; reflexivity);
+      pose proof (callback_workload_fr beh 1 k 0 0 st s W N F) as [N2 J2]; destruct (callback beh 1 k 0 0 s) as [r s2] end.
+    cbn [snd] in *.
     match goal with |- nosig ?s /\ _ => assert (F3 : fr s2 s) by (split; reflexivity) end.
-    split; [eapply fr_nosig; eauto|]. intros q. rewrite (fr_jq _ _ q F3), J2. apply (fr_jq _ _ q F).
+    split; [eapply fr_nosig; eauto|]. intros q. rewrite (fr_jq _ _ q F3). apply J2.
   - destruct (nth_error (polls st) slot) as [psl|]; [|split; auto].
-    match goal with |- context [callback beh 2 ?k ?a ?b st] =>
-      pose proof (callback_workload beh 2 k a b st W N) as [N2 J2]; destruct (callback beh 2 k a b st) as [r s2] end.
+    match goal with |- context [callback beh 2 ?k ?a ?b ?s] =>
+      assert (F : fr st s) by (split; reflexivity);
+      pose proof (callback_workload_fr beh 2 k a b st s W N F) as [N2 J2]; destruct (callback beh 2 k a b s) as [r s2] end.
     cbn [snd] in *. destruct (r <? 0).
     + match goal with |- nosig ?s /\ _ => assert (F3 : fr s2 s) by (split; reflexivity) end.
       split; [eapply fr_nosig; eauto|]. intros q. rewrite (fr_jq _ _ q F3). apply J2.
